@@ -423,6 +423,10 @@ Variable ext : string -> list gv -> list (string * gv) -> result gv.
 
 STUB_SIG = {"_read_bytes": "(v_size : gv)", "_read_line": "", "_parse_ubx": "(v_hdr : gv)", "_parse_nmea": "(v_hdr : gv)",
             "_parse_rtcm3": "(v_hdr : gv)", "_do_error": "(v_err : gv)", "read": "(fuel : nat)"}
+# the section variables each translation mentions (a stub has to mention the same ones, so that its type after the section
+# is closed is the one the proofs expect)
+STUB_USES = {"_read_bytes": ["rd"], "_read_line": ["rdl"], "_parse_ubx": ["rd", "attr", "ext"], "_parse_nmea": ["rdl", "attr", "ext"],
+             "_parse_rtcm3": ["rd", "attr", "ext"], "_do_error": ["attr"], "read": ["rd", "rdl", "attr", "ext"]}
 
 
 def generate(report):
@@ -454,12 +458,36 @@ def generate(report):
         except Untranslatable as e:
             failed["py_io" + m] = str(e)
             siblings[m] = (m == "read")
-            out.append("(* UBXReader.%s: NOT TRANSLATED (%s) *)\nDefinition py_io%s %s : IO (world S) gv := raiseIO EOther.\n" % (
-                m, str(e).replace("*", "x").replace('"', "'")[:200], m, STUB_SIG[m]))
+            out.append("(* UBXReader.%s: NOT TRANSLATED (%s) *)\nDefinition py_io%s %s : IO (world S) gv := %sraiseIO EOther.\n" % (
+                m, str(e).replace("*", "x").replace('"', "'")[:200], m, STUB_SIG[m],
+                "".join("let _ := %s in " % v for v in STUB_USES[m])))
     out.append("End Gen.\n")
     out.append("Definition translated_io : list string := [%s]." % "; ".join(coq_str(c) for c in done))
     report["py2coq_io"] = {"translated": done, "untranslated": failed}
     return "\n".join(out) + "\n"
+
+
+UN_TAIL = """
+(* read() was not translated on this run: the statement about it is empty *)
+Theorem read_agree : forall fuel (w : world S),
+  read_ok w (py_read (Datatypes.S fuel) w) (read_one fuel (w_stream w) []).
+Proof. exfalso. clear - T_read. vm_compute in T_read. discriminate T_read. Qed.
+End R.
+"""
+
+
+def tie_files(report, proofs_dir):
+    """(ReaderTie.v, Src_reader_un.v): which proof of `read_agree` the property file uses.  Src_reader_un.v is
+    proofs/Src_reader.v up to its LOOP PROOFS marker followed by the empty-premise proof."""
+    src = open(os.path.join(proofs_dir, "Src_reader.v"), encoding="utf-8").read()
+    mark = src.index("(* ==== LOOP PROOFS")
+    un = ("(* GENERATED by harness/py2coq_io.py from proofs/Src_reader.v - do not edit. *)\n" + src[:mark] + UN_TAIL)
+    ok = "py_ioread" in report["py2coq_io"]["translated"]
+    if ok:
+        un = "(* GENERATED by harness/py2coq_io.py: read() was translated on this run, this file is not used. *)\nDefinition unused : unit := tt.\n"
+    tie = ("(* GENERATED by harness/py2coq_io.py - do not edit. *)\nFrom PyUbx Require Export %s.\n"
+           % ("Src_reader" if ok else "Src_reader_un"))
+    return tie, un
 
 
 if __name__ == "__main__":
